@@ -174,6 +174,22 @@ fn main() {
                 writeln!(out, "#stat {} {}", k, v).unwrap();
             }
         }
+        // C04 direct oracle: bulk containers vs element-wise encoding
+        "bulk" => {
+            let mut n = 0u64;
+            for e in selected(&reg, &a) {
+                for &v in &e.versions {
+                    let mut r = Rng::new(name_seed(a.seed, &e.name, 4000 + v as u64));
+                    for _ in 0..a.cases {
+                        for l in (e.bulk)(&e.name, &mut r, a.size, v) {
+                            writeln!(out, "{}", l).unwrap();
+                        }
+                        n += 1;
+                    }
+                }
+            }
+            writeln!(out, "#stat bulk-checks {}", n).unwrap();
+        }
         // S-container: file bytes and loading for the schema-less and plain containers vs the model;
         // header corruptions; direct round-trip oracle on all four containers (C01)
         "files" => {
